@@ -273,7 +273,7 @@ End WithExpression.
 Fixpoint expression_fuel (fuel : nat) : parser (located expr) :=
   match fuel with
   | O => out_of_fuel
-  | S f => expression_body (expression_fuel f)
+  | S f => fun st i => expression_body (expression_fuel f) st i   (* eta-expanded: built only when called *)
   end.
 Definition expression : parser (located expr) := fun st i => expression_fuel (S (length (rem i))) st i.
 
@@ -319,7 +319,7 @@ End WithConfigMap.
 Fixpoint config_map_fuel (fuel : nat) : parser token :=
   match fuel with
   | O => out_of_fuel
-  | S f => config_map_body (config_map_fuel f)
+  | S f => fun st i => config_map_body (config_map_fuel f) st i
   end.
 Definition config_map : parser token := fun st i => config_map_fuel (S (length (rem i))) st i.
 
@@ -462,7 +462,7 @@ End WithStatement.
 Fixpoint statement_fuel (fuel : nat) : parser token :=
   match fuel with
   | O => out_of_fuel
-  | S f => statement_body (statement_fuel f)
+  | S f => fun st i => statement_body (statement_fuel f) st i
   end.
 Definition statement : parser token := fun st i => statement_fuel (S (length (rem i))) st i.
 
